@@ -6,7 +6,7 @@ sys.path.insert(0, '/verif/rules'); sys.path.insert(0, '/verif/mutants')
 import core, mutate
 from facts import build_facts, load_facts
 from concurrent.futures import ProcessPoolExecutor
-PIDS = ['C%02d' % i for i in range(1, 17)]
+PIDS = ['C%02d' % i for i in range(1, 17) if i != 14]     # C14's witnesses are compiled against a source tree, not against cached facts
 VF = '/var/tmp/vf'
 
 def build_one(a):
@@ -27,8 +27,10 @@ def run_one(a):
     F = load_facts(os.path.join(VF, name + '.json'))
     F.src_hash = 'variant:' + name
     out = {}
+    import time
     for pid in pids:
         mod = importlib.import_module(pid.lower())
+        t0 = time.time()
         try:
             lines, v, k, ev, res = core.run_property(pid, mod, 'quick', facts=F, write=False)
             new = sorted({r.key for r in res if not r.ok} - base[pid])
@@ -37,6 +39,8 @@ def run_one(a):
             new = ['ERROR ' + traceback.format_exc()[-600:]]
         if new:
             out[pid] = new
+        if time.time() - t0 > 20:
+            print('SLOW', name, pid, round(time.time() - t0), file=sys.stderr)
     return name, out
 
 if sys.argv[1] == 'build':
